@@ -13,6 +13,7 @@ import (
 	"time"
 
 	"verifsa/internal/load"
+	"verifsa/internal/prover"
 )
 
 type Verdict string
@@ -196,6 +197,25 @@ func RunProperty(def PropertyDef, repo, root, tier string, seed int) int {
 				}
 			}()
 			def.Run(c)
+			// thorough: the whole rule set again on the GOARCH=386 program (32-bit int, other build-tagged files);
+			// every obligation is re-emitted with an @386 key so that the two architectures are decided separately.
+			if tier == "thorough" && c.Prog386 != nil {
+				sub := c.Fork()
+				sub.Prog, sub.Tier = c.Prog386, "quick"
+				prover.WordBits = 32
+				def.Run(sub)
+				prover.WordBits = 64
+				for _, o := range sub.obls {
+					o.Key += "@386"
+					c.add(o)
+				}
+				for r, n := range sub.minInst {
+					if sub.instances[r] < n {
+						c.add(Obligation{Rule: r, Key: "instances@386", Verdict: Undecided, Kind: "coverage-loss",
+							Detail: fmt.Sprintf("rule matched %d constructs on GOARCH=386, expected >= %d", sub.instances[r], n)})
+					}
+				}
+			}
 		}()
 	}
 	// coverage-loss: a rule that matches fewer constructs than confirmed by hand must not pass.
@@ -232,7 +252,7 @@ func RunProperty(def PropertyDef, repo, root, tier string, seed int) int {
 			discharged++
 			continue
 		}
-		if k, ok := knownByID[o.ID()]; ok && o.Verdict == Violated {
+		if k, ok := knownByID[strings.TrimSuffix(o.ID(), "@386")]; ok && o.Verdict == Violated {
 			knownHits++
 			if !seenKnown[o.ID()] {
 				seenKnown[o.ID()] = true
